@@ -2,11 +2,17 @@
 // Every sub-command reads ndjson requests on stdin (or a file) and writes one ndjson answer per request.
 // Panics of the code under test are data ({"verdict":"panic",...}), never harness failures.
 
+#[cfg(feature = "asttrees")]
+mod ast_export;
 mod compile_cmd;
+#[cfg(feature = "hir")]
 mod hir_cmd;
+#[cfg(feature = "ir")]
 mod ir_export;
+#[cfg(feature = "names")]
 mod names_cmd;
 mod parse_cmd;
+#[cfg(feature = "query")]
 mod query_cmd;
 mod sep_cmd;
 mod util;
@@ -24,10 +30,13 @@ fn main() {
     }
     let code = match args[1].as_str() {
         "compile" => compile_cmd::run(rest),
+        #[cfg(feature = "hir")]
         "hir" => hir_cmd::run(rest),
         "parse" => parse_cmd::run(rest),
+        #[cfg(feature = "names")]
         "names" => names_cmd::run(rest),
         "sep" => sep_cmd::run(rest),
+        #[cfg(feature = "query")]
         "query" => query_cmd::run(rest),
         other => {
             eprintln!("unknown sub-command {other}");
